@@ -221,7 +221,7 @@ def job(a):
     finally:
         shutil.rmtree(tmp, ignore_errors=True)
     if spec["optical"] and len(t) > 0 and spec.get("schedules", True):
-        for r in explore_schedules(spec, seed, base, 60 if tier == "quick" else 400, tier):
+        for r in explore_schedules(spec, seed, base, 60 if tier == "quick" else 150, tier):
             info["execs"] += r["n"]
             info["sched"].append((r["sch"], r["w"], r["n"], r["outcomes"], r["capped"]))
             for choices, o in r["bad"]:
@@ -258,12 +258,13 @@ def specs(tier):
     out = []
     alts = [525.0] if tier == "quick" else [33.0, 525.0]
     for mode, sp, cl, (o, r), alt in itertools.product(("Diffuse", "Target"), ("mono", "power"), ("none", "mono", "map"), ((True, True), (True, False), (False, True)), alts):
-        sched = (o and r) or tier == "thorough"  # single-channel runs share the shower stage with 'both'
-        # enough in-range showers for two partitions of the shower stage (three in thorough) where schedules are explored
+        sched = o and r  # single-channel runs share the shower stage with 'both'
+        # enough in-range showers for two partitions of the shower stage where schedules are explored (three partitions
+        # for the pressure-map configurations in thorough)
         if mode == "Diffuse":
-            n = 150 if tier == "quick" else 260
+            n = 260 if (tier == "thorough" and cl == "map" and sched) else 150
         else:
-            n = (2600 if tier == "quick" else 5000) if sched and o else 150
+            n = 2600 if sched and o else 150
         out.append(dict(mode=mode, spectrum=sp, cloud=cl, optical=o, radio=r, alt=alt, n=n, schedules=sched))
     # a configuration in which radio events trigger (channel isolation of the radio integral needs passing events)
     out.append(dict(mode="Diffuse", spectrum="mono", cloud="map", optical=True, radio=True, alt=33.0, n=150, logE=11.0, schedules=True, extra={"detector": {"radio": {"snr_threshold": 1.0}}}))
@@ -281,7 +282,7 @@ def specs(tier):
 
 def run(ctx):
     tier = ctx.tier
-    S = 1 if tier == "quick" else 3
+    S = 1 if tier == "quick" else 2
     seeds = [ctx.seed + i for i in range(S)]
     sp = specs(tier)
     jobs = [(s, seed, tier) for s in sp for seed in seeds]
